@@ -5,3 +5,6 @@ import Woodpile.Model.ReadN
 import Woodpile.Proofs.HcobsSpec
 import Woodpile.Props.C02
 import Woodpile.Props.C07
+import Woodpile.Model.IovecOps
+import Woodpile.Proofs.IovecOwn
+import Woodpile.Props.C05
